@@ -27,6 +27,7 @@ import GoZero.C19.Schedule
 import GoZero.C19.Atomic
 import GoZero.C19.InjModel
 import GoZero.C19.Driver
+import GoZero.C19.LinProofs
 namespace GoZero.C19
 open Spec
 
@@ -574,6 +575,54 @@ theorem driver_cfg_distinct_ids (nkeys : Nat) : DistinctIds (mkCfg nkeys) := by
   rw [e, e] at h
   exact Nat.repr_injective ((String.append_right_inj "id").mp h)
 
+/-- **the linearizability monitor never raises a false alarm on the model**: for the outcome the
+command-level model computes for an `inj` line (`runInj real`: results of the call and of the bracketed
+operations, final store), from any state with TTLs on all keys, `linearize` finds an atomic placement. -/
+theorem linearize_finds_model_placement (cfg : Nat → LockCfg) (keys : List String) (st : St) (h : HasTTL st)
+    (outer : Op) (ho : isCall outer = true) (cached : Bool) (p : Nat) (hp : 1 ≤ p) (inner : List Op)
+    (hs : ∀ op ∈ inner, isSimple op = true) :
+    (linearize cfg keys (abs st) outer (some (runInj real cfg st outer cached p inner).outer)
+      (inner.zip ((runInj real cfg st outer cached p inner).inner.map some))
+      (modelDump (runInj real cfg st outer cached p inner).st keys)).isSome = true := by
+  have hm := injFrom_real cfg st (callOf st outer) cached p hp inner hs _ (runInj_eq_injFrom cfg st outer ho cached p inner)
+  unfold linearize
+  rw [List.find?_isSome]
+  rcases Nat.lt_or_ge (realTrips cached) p with hlt | hge
+  · obtain ⟨_, h2, h3, h4⟩ := hm.2 hlt
+    refine ⟨(0, secOf st outer), ?_, ?_⟩
+    · rw [h3, map_fst_modelZip _ _ (results_length cfg inner _)]
+      exact mem_placements st outer inner 0 (by omega)
+    · rw [h2, h3, h4, placed_first cfg st outer ho inner]
+      have := specExplains_model cfg keys st h ((callOf st outer).op :: inner)
+      simp only [run, List.foldl_cons] at this
+      simp only [run]
+      rw [this]; rfl
+  · obtain ⟨_, h2, h3, h4⟩ := hm.1 hge
+    refine ⟨(inner.length, secOf st outer), ?_, ?_⟩
+    · rw [h2, map_fst_modelZip _ _ (results_length cfg inner _)]
+      exact mem_placements st outer inner inner.length (by omega)
+    · rw [h2, h3, h4, placed_last cfg st outer ho inner]
+      have := specExplains_model cfg keys st h (inner ++ [(callOf st outer).op])
+      rw [run_append] at this
+      simp only [run, List.foldl_cons, List.foldl_nil] at this
+      simp only [run]
+      rw [this]; rfl
+
+
+/-- … in particular in every state reachable from the empty store (where the driver starts), with the spec
+state the driver carries along (`Spec.run`). -/
+theorem linearizability_monitor_silent_on_model (g : Nat) (cfg : Nat → LockCfg) (keys : List String) (ops : List Op)
+    (outer : Op) (ho : isCall outer = true) (cached : Bool) (p : Nat) (hp : 1 ≤ p) (inner : List Op)
+    (hs : ∀ op ∈ inner, isSimple op = true) :
+    (linearize cfg keys (Spec.run cfg (ASt.initG g) ops) outer
+      (some (runInj real cfg (run cfg (St.initG g) ops) outer cached p inner).outer)
+      (inner.zip ((runInj real cfg (run cfg (St.initG g) ops) outer cached p inner).inner.map some))
+      (modelDump (runInj real cfg (run cfg (St.initG g) ops) outer cached p inner).st keys)).isSome = true := by
+  have hr := run_refines cfg ops (St.initG g) (hasTTL_initG g)
+  rw [abs_initG] at hr
+  rw [hr.1]
+  exact linearize_finds_model_placement cfg keys _ hr.2 outer ho cached p hp inner hs
+
 /-! ### non-vacuity: concrete instances of the hypotheses and of the scenarios -/
 
 
@@ -656,5 +705,10 @@ example : holds exCfg (run exCfg St.init [.setExpire 0 2, .acquire 0, .ft 2000])
 -- (script run pending) while instance 0 holds
 example : (crun real exCfg CConc.init [.acquire 0 0 true, .cmd 0, .ret 0, .acquire 1 1 true]).map
     (fun c => (pending c 1, decide (holds exCfg c.st 0))) = some (true, true) := by decide
+
+-- a placement found for the property's scenario (lease runs out inside Release, then the competitor acquires): the
+-- Release took effect after the expiry (position 1; position 2, after the competitor's Acquire, explains it too)
+example : linearize exCfg ["k"] (Spec.run exCfg ASt.init [.acquire 0]) (.release 0) (some false)
+    [(.ft 500, some true), (.acquire 1, some true)] "k=aa:500" = some (1, 0) := by decide
 
 end GoZero.C19
